@@ -193,18 +193,24 @@ example : ssaCircuitEval false [(0, 4), (1, 4)] exDiv [13, 3] =
       exact EstOn_exact _ _ (by decide) (by decide))
 
 -- non-vacuity of the contrapositive: an estimator that always answers 0 (`zeroEstimator`) is not within one of
--- 13 / 3 = 4; the GMW-shaped circuit with it gives 1 rem 10 instead of 4 rem 1, and the theorem exhibits the instance
+-- 3 / 1 = 3; the GMW-shaped circuit of `func main(a, b uint2) uint2 { return a / b }` with it gives 1 (the correction
+-- step adds one), and the theorem exhibits the instance.  (Width 2: the kernel evaluates the gate list.)
 def zeroEstimator (a _b : List Nat) : Bld.BM (List Nat) := do
   let z ← Bld.zeroWire
   pure (List.replicate a.length z)
 
-example : SupportedE zeroEstimator [(0, 4), (1, 4)] exDiv = true := by decide +kernel
-example : ssaCircuitEvalE zeroEstimator [(0, 4), (1, 4)] exDiv [13, 3] = some [(1, 4), (10, 4)] := by decide +kernel
+def exDiv2 : List SInstr :=
+  [⟨.udiv, [.var 0 2, .var 1 2], some (2, 2)⟩, ⟨.ret, [.var 2 2], none⟩]
 
-example : ∃ p ∈ divInstancesOf (Nat → Nat) [(0, 4), (1, 4)] exDiv [13, 3],
-    ¬ EstOn zeroEstimator (inputBits [(0, 4), (1, 4)] [13, 3]) p :=
+theorem exDiv2_zeroEstimator_wrong :
+    ssaCircuitEvalE zeroEstimator [(0, 2), (1, 2)] exDiv2 [3, 1] = some [(1, 2)] := by decide +kernel
+
+example : SupportedE zeroEstimator [(0, 2), (1, 2)] exDiv2 = true := by decide +kernel
+
+example : ∃ p ∈ divInstancesOf (Nat → Nat) [(0, 2), (1, 2)] exDiv2 [3, 1],
+    ¬ EstOn zeroEstimator (inputBits [(0, 2), (1, 2)] [3, 1]) p :=
   C09_div_wrong_output_refutes_estimate_est _ _ _ (by decide +kernel) _ _
-    (by decide +kernel : _ = some [(4, 4), (1, 4)]) (by decide +kernel)
+    (by decide +kernel : _ = some [(3, 2)]) (by rw [exDiv2_zeroEstimator_wrong]; decide)
 
 -- the estimate hypothesis is satisfiable on EVERY instance with a non-zero divisor (exact estimator)
 example (inp : List Bool) (n A B : Nat) (hn : 0 < n) (hB : 0 < B) : EstOn Bld.exactEstimator inp (n, A, B) :=
